@@ -191,6 +191,12 @@ def v_eq(a, b):
         if not a.is_bytes and (a.kind == 'tuple') != (b.kind == 'tuple'):
             return z3.BoolVal(False)
         return a.t == b.t
+    if isinstance(a, VSeq) and isinstance(b, VList) and all(isinstance(x, (VInt, VBool)) for x in b.items):
+        if a.kind not in ('list',):
+            return z3.BoolVal(False)
+        return a.t == seq_of_terms([x.t if isinstance(x, VInt) else z3.If(x.t, 1, 0) for x in b.items])
+    if isinstance(b, VSeq) and isinstance(a, VList):
+        return v_eq(b, a)
     if isinstance(a, VStr) and isinstance(b, VStr):
         return a.t == b.t
     if isinstance(a, VOpaque) and isinstance(b, VOpaque):
@@ -249,6 +255,13 @@ def ite_v(c, a, b):
     if isinstance(a, VConst) and isinstance(b, VConst) and a.py is b.py:
         return a
     raise OutOfSubset('ite over different kinds: %r / %r' % (a, b))
+
+
+def seq_of_terms(ts):
+    if not ts:
+        return z3.Empty(SeqS)
+    us = [z3.Unit(t) for t in ts]
+    return us[0] if len(us) == 1 else z3.Concat(*us)
 
 
 def mask_runs(mask):
@@ -429,6 +442,8 @@ class Interp:
 
     def ev_List(self, node, fr):
         items = [self.ev(e, fr) for e in node.elts]
+        if fr.spec and all(self.is_intlike(x) for x in items):
+            return VSeq(seq_of_terms([self.as_int(x) for x in items]), 'list')   # spec lists are int sequences
         return VList(items)
 
     def ev_Dict(self, node, fr):
@@ -588,7 +603,10 @@ class Interp:
             i = self.as_int(idx)
             n = z3.Length(base.t)
             if fr.spec:
-                j = z3.If(i < 0, i + n, i) if not (is_int_const(i) and i.as_long() >= 0) else i
+                if (is_int_const(i) and i.as_long() >= 0) or self.implied(i >= 0):
+                    j = i
+                else:
+                    j = z3.If(i < 0, i + n, i)
             else:
                 ok = z3.And(i >= -n, i < n) if not (is_int_const(i) and i.as_long() >= 0) else i < n
                 if not self.path.branch(ok, 'index'):
@@ -598,7 +616,8 @@ class Interp:
             if isinstance(base, VStr):
                 return VStr(z3.SubString(base.t, j, 1))
             e = base.t[j]
-            if base.is_bytes and not fr.spec:
+            if base.is_bytes:
+                # type invariant of python bytes/bytearray (for an out-of-range j the term is unspecified anyway)
                 self.path.assume(z3.And(e >= 0, e <= 255))
             return VInt(e)
         if isinstance(base, (VTuple, VList)):
@@ -850,6 +869,10 @@ class Interp:
                     return VInt(self.pow2(8 * y))
                 raise OutOfSubset('general **')
             raise OutOfSubset('int binop %s' % type(op).__name__)
+        if isinstance(a, VSeq) and isinstance(b, VList) and all(self.is_intlike(x) for x in b.items):
+            b = VSeq(seq_of_terms([self.as_int(x) for x in b.items]), a.kind)
+        if isinstance(b, VSeq) and isinstance(a, VList) and all(self.is_intlike(x) for x in a.items):
+            a = VSeq(seq_of_terms([self.as_int(x) for x in a.items]), b.kind)
         if isinstance(a, VSeq) and isinstance(b, VSeq):
             if isinstance(op, ast.Add):
                 if a.is_bytes != b.is_bytes and not fr.spec:
@@ -959,6 +982,10 @@ class Interp:
             if fr.old is None:
                 raise OutOfSubset('old() without pre-state')
             return self.ev(node.args[0], fr.old)
+        if isinstance(node.func, ast.Name) and node.func.id == 'at_head' and fr.spec:
+            if getattr(fr, 'head', None) is None:
+                raise OutOfSubset('at_head() outside a loop annotation')
+            return self.ev(node.args[0], fr.head)
         if isinstance(node.func, ast.Name) and fr.spec and node.func.id in ('forall', 'exists'):
             return self.quantifier(node, fr)
         fn = self.ev(node.func, fr)
@@ -1078,7 +1105,10 @@ class Interp:
     def call_function(self, func, args, kwargs, fr, self_cls=None, force_inline_ctor=False):
         if self.reg.is_spec_module(func.module) and not self.reg.is_lemma(func):
             return self.call_spec_function(func, args, kwargs)
-        contract = self.reg.contract_for(func, self_cls)
+        if self.reg.is_spec_module(func.module):
+            contract = self.reg.lemmas[func.name][1]
+        else:
+            contract = self.reg.contract_for(func, self_cls)
         if contract is not None and not contract.inline and \
                 not (self.current_target is func):
             return self.call_by_contract(func, contract, args, kwargs, fr, self_cls)
@@ -1129,6 +1159,11 @@ class Interp:
         # recursive: uninterpreted symbol + unfolding instance
         params = [p.arg for p in func.node.args.args]
         argvals = [locals_[p] for p in params]
+        if argvals and all(isinstance(v, VInt) and is_int_const(v.t) and abs(v.t.as_long()) < 5000 for v in argvals) \
+                and self.reg.return_kind(func) == 'Int':
+            nat = self.reg.native_spec(func.name)
+            if nat is not None:
+                return VInt(nat(*[v.t.as_long() for v in argvals]))
         sorts = []
         terms = []
         for v in argvals:
@@ -1213,6 +1248,14 @@ class Interp:
             self.exec_stmt(st, fr)
 
     def exec_stmt(self, st, fr):
+        c = self.current_contract
+        if c is not None and c.stmt_hints and fr.func is self.current_target:
+            text = None
+            for htext, uses in c.stmt_hints:
+                if text is None:
+                    text = ast.unparse(st)
+                if text == htext:
+                    self.apply_uses(uses, fr)
         m = getattr(self, 'st_' + type(st).__name__, None)
         if m is None:
             raise OutOfSubset('statement %s' % type(st).__name__)
@@ -1498,6 +1541,7 @@ class Interp:
         sf.spec = True
         sf.old = fr.old
         sf.target_module = fr.module
+        sf.head = getattr(fr, 'head', None)
         return sf
 
     def check_invariants(self, spec, fr, kind, name, st):
@@ -1524,6 +1568,7 @@ class Interp:
         self.assume_invariants(spec, fr)
         if spec:
             self.apply_uses(spec.uses, fr)
+        fr.head = self.snapshot_frame(self.spec_frame(fr))
         c = self.ev(st.test, fr)
         if not self.path.branch(self.truth(c), 'while@%d' % st.lineno):
             self.exec_block(st.orelse, fr)
@@ -1604,6 +1649,7 @@ class Interp:
         self.assume_invariants(spec, fr)
         if spec:
             self.apply_uses(spec.uses, fr)
+        fr.head = self.snapshot_frame(self.spec_frame(fr))
         if not self.path.branch(i < hi, 'for@%d' % st.lineno):
             self.exec_block(st.orelse, fr)
             return
@@ -1714,6 +1760,9 @@ class Interp:
     def fresh_result(self, contract, func, cf):
         ty = contract.returns
         if ty is None:
+            for e in contract.ensures:
+                if any(isinstance(n, ast.Name) and n.id == 'result' for n in ast.walk(e)):
+                    raise OutOfSubset('contract of %s is used at a call site but has no return annotation' % func.ident)
             return VNone
         return self.reg.fresh_of_type(self, ty, 'ret.' + func.name)
 
